@@ -106,8 +106,40 @@ def generate(rng, tier):
     p["part"] = None
     from sim.ramses import World
 
+    deep = rng.random() < 0.06
+    if deep:
+        # a deep uniform base grid (as in production runs): the search cubes of the pre-selection reach the third and fourth
+        # digit of the Hilbert key.  A run of consecutive level-4 cubes along the curve gets one rank each (bound keys on the
+        # cube boundaries), and the boxes are placed inside those cubes: a wrong key for any of them selects the wrong file
+        from sim.hilbert_ref import hilbert3d
+
+        lmax = rng.choice([4, 4, 5])
+        ncpu = rng.choice([8, 12, 16, 24])
+        p.update(ndim=3, ordering="hilbert", levelmin=4, levelmax=lmax, maxcells=rng.choice([4200, 4700]), ncpu=ncpu, nboundary=0, sink=None,
+                 grav=False, rt_vars=None, ghost_p=rng.choice([0.0, 0.0, 0.3]), bound_frac=None)
+        p["hydro_vars"] = p["hydro_vars"][:3]
+        # the finest search cubes are those of level levelmin - 1 (the father cells of the coarsest leaves)
+        nb_, side = 3, 8
+        inv = {hilbert3d(x, y, z, nb_): (x, y, z) for x in range(side) for y in range(side) for z in range(side)}
+        k0 = rng.randrange(0, side ** 3 - ncpu)
+        step = 8 ** (lmax + 1 - nb_)
+        p["bound_keys"] = [(k0 + i) * step for i in range(1, ncpu)]
     leaves = World(p).leaves()
     sels = [gen_selection(rng, p, leaves) for _ in range(rng.choice([1, 2, 3]))]
+    if deep:
+        sels = []
+        for _ in range(8):
+            cube = inv[k0 + rng.randrange(0, ncpu)]
+            iv = []
+            small = rng.random() < 0.4  # one level-4 cell inside the cube, or most of the cube
+            for c, x in zip("xyz", cube):
+                if small:
+                    h = rng.choice([0.0, 0.5])
+                    lo, hi = (x + h + rng.uniform(0.02, 0.1)) / side, (x + h + rng.uniform(0.4, 0.48)) / side  # contains the finest-level centres
+                else:
+                    lo, hi = (x + rng.uniform(0.02, 0.2)) / side, (x + rng.uniform(0.8, 0.98)) / side
+                iv.append({"var": "position_" + c, "lo": lo, "hi": hi, "lo_closed": rng.random() < 0.5, "hi_closed": rng.random() < 0.5})
+            sels.append({"intervals": iv, "values": [], "cpu_list": None})
     for s in sels:
         s["warm"] = rng.random() < 0.25
         s["on_loaded"] = rng.random() < 0.2
